@@ -809,6 +809,8 @@ class revert_intro(Method):
         for other in prf.items:
             assert other is item or not cites(other, prevs[0]), \
                 "revert_intro: assumption is used elsewhere"
+            assert other is item or other is cur_item or other is pt or other.th is None or \
+                pt.th.prop not in other.th.hyps, "revert_intro: assumption is used elsewhere"
 
         state.set_line(id, 'sorry', th=Thm.implies_intr(pt.th.prop, cur_item.th))
         state.set_line(id.incr_id(1), item.rule, args=item.args,
